@@ -5,6 +5,26 @@ import ast
 
 from __main__ import Fact, lean_bool, lean_list, lean_str
 
+import importlib.util
+import os
+import sys
+
+
+def _load_norm():
+    """tools/extractors/normalise_rpc.py, loaded once per process under a name of its own (sys.path is left alone)."""
+    name = "jrv_normalise_rpc"
+    if name not in sys.modules:
+        spec = importlib.util.spec_from_file_location(
+            name, os.path.join(os.path.dirname(os.path.abspath(__file__)), "normalise_rpc.py"))
+        mod = importlib.util.module_from_spec(spec)
+        sys.modules[name] = mod
+        spec.loader.exec_module(mod)
+    return sys.modules[name]
+
+
+norm = _load_norm()
+
+
 PROPERTIES = ["C12"]
 
 
@@ -36,6 +56,8 @@ def _flatten(stmts):
 def _server_close(fn):
     """Sequence of calls of server_close; a call guarded by `if self.__serving` is prefixed with 'if-serving:'."""
     out = []
+    # canonical form: `if not serving: pass else: shutdown` (an expanded guard clause) is `if serving: shutdown`
+    fn = norm.negation_normal(norm.clone(fn))
     for st in _flatten(fn.body):
         if isinstance(st, ast.Expr) and isinstance(st.value, ast.Call):
             out.append(_call_desc(st.value))
@@ -129,6 +151,7 @@ def _serve_flag(fn):
 
 
 def facts(src):
+    src = norm.nsource(src)
     cls = src.klass("SimpleJSONRPCServer", "PooledJSONRPCServer")
     close = serve = proc = None
     if cls is not None:
